@@ -429,4 +429,73 @@ theorem encode_writeCore_eq_layout (E : Ext) (t : Table) (h : Encodable E t)
   rw [h0, encodeAux_false, restHdus, List.flatMap_append, hk, primary_unit E t h hlt hc, extents_units E t h hel,
     layoutBytes, List.append_assoc]
 
+
+/-! ## pixel numbering: reversed axes + first-axis-fastest = row-major -/
+
+theorem fitsIndex_snoc : ∀ (A P : List Nat) (a p : Nat), A.length = P.length →
+    fitsIndex (A ++ [a]) (P ++ [p]) = fitsIndex A P + prod A * p
+  | [], [], a, p, _ => by simp [fitsIndex, prod]
+  | x :: A, y :: P, a, p, h => by
+    have h' : A.length = P.length := by simpa using h
+    simp only [List.cons_append, fitsIndex, fitsIndex_snoc A P a p h', prod_cons, Nat.mul_add, Nat.mul_assoc,
+      Nat.add_assoc]
+  | [], _ :: _, _, _, h => by simp at h
+  | _ :: _, [], _, _, h => by simp at h
+
+/-- **Axis reversal is right**: the pixel of the FITS image (axes = reversed `naxes`, first axis fastest) whose
+    coordinates are the reversed multi-index `idx` is element `Σ idx[i]·strides[i]` of the table's row-major array —
+    so writing the coefficient array in memory order into the image with reversed axes stores
+    coefficient `idx` at pixel `(idx[n-1]+1, …, idx[0]+1)`. -/
+theorem fitsIndex_reverse : ∀ (naxes idx : List Nat), naxes.length = idx.length →
+    fitsIndex naxes.reverse idx.reverse = tableIndex (rowMajor naxes) idx
+  | [], [], _ => rfl
+  | a :: as, i :: is, h => by
+    have h' : as.length = is.length := by simpa using h
+    rw [List.reverse_cons, List.reverse_cons,
+      fitsIndex_snoc _ _ _ _ (by rw [List.length_reverse, List.length_reverse]; exact h'),
+      fitsIndex_reverse as is h', prod_reverse, rowMajor, tableIndex]
+    rw [Nat.add_comm, Nat.mul_comm]
+  | [], _ :: _, h => by simp at h
+  | _ :: _, [], h => by simp at h
+
+/-! ## where a coefficient is in the file -/
+
+theorem bigEndian_length (k n : Nat) : (bigEndian k n).length = k := by simp [bigEndian]
+
+theorem flatMap_drop_take {α β} (f : α → List β) (k : Nat) (hf : ∀ a, (f a).length = k) :
+    ∀ (l : List α) (j : Nat) (hj : j < l.length), ((l.flatMap f).drop (k * j)).take k = f l[j]
+  | a :: r, 0, _ => by
+    simp only [Nat.mul_zero, List.drop_zero, List.flatMap_cons, List.getElem_cons_zero]
+    rw [List.take_left' (hf a)]
+  | a :: r, j+1, hj => by
+    have hj' : j < r.length := by simpa using hj
+    rw [List.flatMap_cons, Nat.mul_succ, Nat.add_comm, ← List.drop_drop, List.drop_left' (hf a)]
+    simpa using flatMap_drop_take f k hf r j hj'
+
+theorem headerUnit_length (recs : List Str) : (headerUnit recs).length % 2880 = 0 := by
+  simp only [headerUnit, List.length_map, List.length_append, List.length_replicate, fill]
+  omega
+
+/-- In the documented layout the primary data start on a block boundary right after the primary header, and the four
+    bytes at offset `4·j` of the data are the big-endian bit pattern of `coef[j]` — for every bit pattern. -/
+theorem layout_coef_bytes (E : Ext) (t : Table) (j : Nat) (hj : j < t.coef.length) :
+    ∃ hdr rest, layoutBytes E t = hdr ++ rest ∧ hdr = headerUnit (primaryHeader E t) ∧ hdr.length % 2880 = 0 ∧
+      (rest.drop (4 * j)).take 4 = bigEndian 4 t.coef[j].toNat := by
+  refine ⟨headerUnit (primaryHeader E t),
+    dataUnit (coefData t) ++ ((List.range t.ndim).flatMap (knotUnit t) ++ extentsUnits t), ?_, rfl,
+    headerUnit_length _, ?_⟩
+  · simp only [layoutBytes, primaryUnit, List.append_assoc]
+  · have hlen : 4 * j + 4 ≤ (coefData t).length := by
+      have : (coefData t).length = 4 * t.coef.length := by
+        unfold coefData
+        induction t.coef with
+        | nil => rfl
+        | cons a r ih => rw [List.flatMap_cons, List.length_append, ih, bigEndian_length, List.length_cons]; omega
+      omega
+    have h1 := flatMap_drop_take (fun w : UInt32 => bigEndian 4 w.toNat) 4 (fun _ => bigEndian_length _ _) t.coef j hj
+    unfold dataUnit
+    rw [List.append_assoc, List.drop_append_of_le_length (by omega), List.take_append_of_le_length]
+    · exact h1
+    · rw [List.length_drop]; omega
+
 end PsV.Fits.Layout
